@@ -126,7 +126,7 @@ class SimJob:
         return [m for m, mt in zip(self.outputs, self.out_times) if mt <= lim]
 
     def active(self, t):
-        return self.submit_ok and not self.ended(t)
+        return self.submit_ok and t >= self.t_submit and not self.ended(t)
 
 
 class World:
